@@ -65,7 +65,8 @@ CHECKS["C02"] = ("FileResponse.tla, RangeOps.tla",
     "zero-copy messages, multipart plan and the closed length formula) against StatusOK, LengthTruthful, BodyExact, "
     "MultipartShape, UnsatHeader, RangeHeader, LastOnlyFinal; every case executed on the real classes against real files",
     "All listed sizes (0, 1, multiples of the chunk and +-1, digit-count steps 9/10/11, thorough 99/100/101) x chunk sizes x "
-    "three interfaces x GET/HEAD x single/pair/triple range sets x 7 If-Range kinds; byte-exact body comparison (multipart "
+    "three interfaces x GET/HEAD x single/pair/triple range sets x 9 If-Range kinds; 90 (thorough 680) random cases with real file "
+    "sizes (999 .. 10^6, digit-count steps, exact multiples of 4 KiB / 64 KiB chunks, 0-4 specs); byte-exact body comparison (multipart "
     "body rebuilt with the response's own boundary), per-event sizes compared as mechanism (drift).",
     "Trusted: TLC, servers.py (plays the zero-copy server by reading (fd, offset, count) itself), canonical ranges from the "
     "C03-bound function. The file is not modified between construction and sending.",
